@@ -30,3 +30,15 @@ def gen_headers(ctx, xml_name):
     if rc != 0:
         raise P.EngineError("sbeppc rejected verification schema %s (rc=%d): %s" % (xml_name, rc, out[-800:]))
     return M.Schema(path), inc
+
+
+def plan_env(plan, n=3):
+    """VERIF_PLAN="schema.xml:std[:mode],..." replaces a check's (schema, std, mode) plan -- development aid, never set by the registered commands"""
+    v = os.environ.get("VERIF_PLAN")
+    if not v: return plan
+    out = []
+    for item in v.split(","):
+        f = item.split(":")
+        f += ["17", "checked"][len(f) - 1:]
+        out.append(tuple(f[:n]))
+    return out
